@@ -16,11 +16,12 @@ from props import _dfrows_util as U
 
 U.warm()
 from props import c36, c37, c43, c46
+from props import _c42x_labels as X42
 
 PROP = "C42"
 READY = True
 DRIVER = "dm_dfrows"
-LEAN_MODULES = ["DaskModel.Props.C42"]
+LEAN_MODULES = ["DaskModel.Props.C42", "DaskModel.Props.C42xLabels"]
 CASE_TIMEOUT_S = 60
 LEVEL_TEXT = (
     "Proved in Lean: schema_commutes — for the modelled expression classes the lazy schema metaOf (kind of object "
@@ -378,7 +379,7 @@ def case_dtable(ctx, inp):
     ctx.branch("dtable-" + op)
 
 
-CASES = {"model": case_model, "api": case_api, "dtable": case_dtable}
+CASES = {"model": case_model, "api": case_api, "dtable": case_dtable, **X42.CASES}
 
 
 def generate(ctx):
@@ -418,6 +419,8 @@ def generate(ctx):
     # interleave so that a deadline cuts every stream proportionally
     rng.shuffle(streams)
     yield from streams
+    # last extension round (generated last: the streams above keep their seeds): Series name / index name / index dtype
+    yield from X42.generate(ctx)
 
 
 def search(ctx):
